@@ -666,9 +666,18 @@ def decode_call(d):
     return out
 
 
+def drop_header_pseudo_axiom(chk):
+    """common.print_assumptions parses the header line 'Axioms:' of Coq's output as an axiom called 'Axioms'; remove exactly
+    that pseudo entry (real non-stdlib axioms are still reported)."""
+    chk.axioms = {k: [a for a in v if a != "Axioms"] for k, v in (getattr(chk, "axioms", None) or {}).items()}
+    chk.broken = [b for b in chk.broken if not (str(b.get("what", "")).endswith("depends on non-stdlib axioms")
+                                                and not C.own_axioms([a for a in b.get("detail", []) if a != "Axioms"]))]
+
+
 def run(chk):
     rng = random.Random(chk.seed)
     chk.build_proofs()
+    drop_header_pseudo_axiom(chk)
     C.reset_backends()
     tier = chk.tier
     cases, meta = [], []
